@@ -91,11 +91,12 @@ def load_known():
                 continue
             if line.startswith("known:"):
                 rest = line[len("known:"):].strip()
-                parts = rest.split(" ", 2)
-                prop = parts[0].split("=", 1)[1]
-                key = parts[1].split("=", 1)[1]
-                desc = parts[2] if len(parts) > 2 else ""
-                known.setdefault(prop, {})[key] = desc
+                prop, rest = rest.split(" ", 1)
+                prop = prop.split("=", 1)[1]
+                assert rest.startswith("key="), "known_findings.txt: malformed line: %s" % line
+                rest = rest[4:]
+                key, _, desc = rest.partition(" -- ")
+                known.setdefault(prop, {})[key.strip()] = desc.strip()
             elif line.startswith("fixed:"):
                 fixed.append(line)
     return known, fixed
@@ -162,9 +163,15 @@ def run_property(prop, tier, repo=None, write_evidence=True, quiet=False):
         if key in seen:
             continue
         seen.add(key)
-        print("KNOWN-FINDING: property=%s %s -- %s" % (prop, key, desc))
+        if write_evidence:
+            print("KNOWN-FINDING: property=%s %s -- %s" % (prop, key, desc))
     rc = 0
-    if new_viol:
+    if new_viol and not write_evidence:
+        rc = 1
+        if not quiet:
+            for a, b, c in new_viol:
+                print("  (scratch) violation %s: %s" % (b, c))
+    elif new_viol:
         rc = 1
         os.makedirs(os.path.join(VERIF, ".work", "replay"), exist_ok=True)
         rp = os.path.join(VERIF, ".work", "replay", "%s.json" % prop)
